@@ -216,10 +216,11 @@ class Impl:
             lines.append(f"addsw {name} {'app' if is_app else 'svc'} {op} {a} {v} {fd} {o(fc)} {ad} {o(ac)}")
         fs = n.file_system
         lines.append(f"fsdefaults {o(fs._default_folder_scan_duration)} {o(fs._default_folder_restore_duration)}")
+        forder = {u: i + 1 for i, u in enumerate(fs.deleted_folders)}  # place in `deleted_folders` (deletion order)
         for fo in self.folders:
             lines.append(f"addfolder {fo.name} {b(fo.deleted)} {fo.health_status.name} {fo.visible_health_status.name} "
                          f"{fo.scan_duration} {fo.scan_countdown} {fo.restore_duration} {fo.restore_countdown} "
-                         f"{len(fo.deleted_files)}")
+                         f"{len(fo.deleted_files)} {forder.get(fo.uuid, 0)}")
             # a deleted file's place in `deleted_files` (dict = deletion order): `restore_file` takes the first of a name
             order = {u: i + 1 for i, u in enumerate(fo.deleted_files)}
             for f in self.files[fo.uuid]:
